@@ -74,8 +74,10 @@ class Fault:
 
 
 class Kernel:
-    def __init__(self, root: str = "/simfs", bufsize: int = 8192, latency=None):
-        self.root = root
+    def __init__(self, root: str | None = None, bufsize: int = 8192, latency=None):
+        # The virtual namespace is rooted at the real cwd so that SimFS path normalisation and
+        # molli's rwlock() (real pathlib resolve()) agree on which spellings name the same file.
+        self.root = root or os.getcwd()
         self.bufsize = bufsize
         self.files: dict[str, bytearray] = {}
         self.fdtab: dict[int, FD] = {}
@@ -396,11 +398,12 @@ class Kernel:
         pid = self.cur_pid
         if self.finished or pid in self.dead:
             raise SimCrash()
+        d = max(d, 1e-6)  # even sleep(0) takes time: a zero-delay poll loop must not freeze the clock
         if self.sched is None:
-            self.now += max(0.0, d)
+            self.now += d
             return
         self.counters["sleep"] += 1
-        self.sched.sleep(pid, max(0.0, d))
+        self.sched.sleep(pid, d)
         if pid in self.dead or self.finished:
             raise SimCrash()
 
